@@ -340,7 +340,7 @@ Qed.
 Lemma uniqz_repeat i k : (1 <= k)%nat -> uniqz (repeat i k) = [i].
 Proof.
   induction k as [|k IH]; [lia|]. intros _. cbn. f_equal.
-  apply filter_none. intros y Hy. apply uniqz_In in Hy. apply repeat_spec in Hy. subst y.
+  apply filter_none. intros y Hy. apply -> uniqz_In in Hy. apply repeat_spec in Hy. subst y.
   rewrite Z.eqb_refl. reflexivity.
 Qed.
 
@@ -363,10 +363,10 @@ Proof.
   intros Hn Hnd. induction n as [|n IH]; [lia|]. cbn [repeat concat].
   rewrite uniqz_app, (uniqz_NoDup ts Hnd).
   rewrite filter_none; [apply app_nil_r|].
-  intros y Hy. apply uniqz_In in Hy. apply negb_false_iff. apply existsb_exists.
+  intros y Hy. apply -> uniqz_In in Hy. apply negb_false_iff. apply existsb_exists.
   exists y. split; [|apply Z.eqb_refl].
   destruct n as [|n]; [destruct Hy|].
-  rewrite <- (IH ltac:(lia)). apply uniqz_In. exact Hy.
+  rewrite <- (IH ltac:(lia)). apply <- uniqz_In. exact Hy.
 Qed.
 
 (* ---------------------------------------------------------------------------------------------- *)
